@@ -67,6 +67,7 @@ static Step make_step(const std::string &op, Rng &r, bool utils_keys = false) {
     if (op == "add_obj_alias") return mk(op, {R(r), R(r), R(r)});
     if (op == "add_ref_arr") return mk(op, {R(r), R(r), R(r), R(r)});
     if (op == "add_ref_obj") return mk(op, {R(r), R(r), R(r), R(r)}, {key()});
+    if (op == "rekey_referenced") return mk(op, {R(r), R(r)}, {key()});
     if (op == "addh") return mk(op, {R(r), R(r), R(r), r.chance(1, 2) ? d2bits(gen_number(r, false, false)) : R(r)}, {key(), gen_string(r, false, false)});
     if (op == "insert") return mk(op, {R(r), R(r), R(r), R(r)});
     if (op == "detach_idx" || op == "delete_idx" || op == "detach_ptr") return mk(op, {R(r), R(r), R(r)});
@@ -135,7 +136,7 @@ static const std::vector<W> CREATE = {{"new_null", 1}, {"new_true", 1}, {"new_fa
 static const std::vector<W> EDIT = {{"add_arr", 8}, {"add_obj", 8}, {"add_obj_cs", 3}, {"addh", 8}, {"insert", 5}, {"detach_idx", 3}, {"detach_key", 3}, {"detach_ptr", 3}, {"delete_idx", 2}, {"delete_key", 2},
                                     {"replace_idx", 3}, {"replace_key", 3}, {"replace_ptr", 3}, {"set_number", 1}, {"set_int", 1}, {"set_valuestring", 2}, {"set_bool", 1}};
 static const std::vector<W> QUERY = {{"q_size", 2}, {"q_idx", 2}, {"q_key", 3}, {"q_foreach", 2}, {"q_val", 1}};
-static const std::vector<W> REFS = {{"new_strref", 2}, {"new_arrref", 1}, {"new_objref", 1}, {"add_ref_arr", 3}, {"add_ref_obj", 3}, {"add_obj_alias", 3}, {"replace_key_alias", 3}};
+static const std::vector<W> REFS = {{"new_strref", 2}, {"new_arrref", 1}, {"new_objref", 1}, {"add_ref_arr", 3}, {"add_ref_obj", 3}, {"add_obj_alias", 3}, {"replace_key_alias", 3}, {"rekey_referenced", 2}};
 static std::vector<W> cat(std::initializer_list<std::vector<W>> l) { std::vector<W> o; for (auto &v : l) o.insert(o.end(), v.begin(), v.end()); return o; }
 
 static void common_knobs(Plan &p, Rng &r, int profile) {
